@@ -292,6 +292,7 @@ class Path(object):
         self.objattrs = {}
         self.ghost = {}
         self.alloc = 0
+        self.split_terms = []     # (term, values): small-domain terms the contract offers for case splitting
 
 
 class Engine(object):
@@ -419,6 +420,7 @@ class Engine(object):
             goal = z3.BoolVal(goal)
         ob = Obligation(name, self.path.pc, goal, kind, line, note)
         ob.lengths = list(getattr(self, 'lengths', []))
+        ob.split_terms = list(self.path.split_terms)
         self.obligations.append(ob)
 
     # ---- heap
